@@ -16,11 +16,14 @@ RULE = ("differential bounded-exhaustive: full Cartesian product of the per-limb
         "modular add/subtract/double, Montgomery multiply/square/reduce} x {output distinct, output = first operand} on "
         "{x86-64 BMI2/ADX, x86-64 baseline, portable 64-bit words, portable 32-bit words}: digests per chunk must be equal, a "
         "differing chunk is bisected to one case; the pivot (portable 64-bit) is tied to Python integers on boundary rows; the "
-        "AArch64 and ARMv6-M assembly SOURCES are executed by an instruction-level interpreter on boundary alphabets. "
+        "AArch64 and ARMv6-M assembly SOURCES are executed by an instruction-level interpreter on boundary alphabets, entered through "
+        "the binding (callee + argument registers/stack slot) extracted from the cross-compiled C++ specialisations. "
         "distinct = distinct (op, alias, operand index) by construction; non-trivial = operands not both in {0,1}")
 ASSUMPTIONS = ["modular operations are compared on all 384-bit operands for add/subtract/double (the back ends implement the same "
                "single conditional correction) and on products below q*2^384 for Montgomery multiplication/reduction",
-               "ARM coverage rests on the interpreters in armsim/ (trusted base); ARM C++ glue is not executed",
+               "ARM coverage rests on the interpreters in armsim/ (trusted base); the ARM C++ glue (template specialisations) is compiled "
+               "for the target by clang and traced symbolically up to its call; the interpreter then runs the routine the glue calls with "
+               "the arguments the glue passes",
                "digest collisions (64-bit) are ignored"]
 
 NATIVE = [("asm", 1), ("asm", 0), ("c64", -1), ("c32", -1)]     # (build config, dispatch mode)
@@ -218,6 +221,7 @@ def shards(ctx):
     from armsim import runner
     out += runner.shards(ctx)
     out.append({"sub": "arm-xcheck"})
+    out.append({"sub": "arm-glue"})
     return [s for s in out if s.get("count", 1) != 0]
 
 
@@ -232,6 +236,13 @@ def run_shard(ctx, shard):
     if sub == "arm":
         from armsim import runner
         return runner.run_shard(ctx, shard)
+    if sub == "arm-glue":
+        from armsim import runner
+        n, info = runner.glue_summary()
+        ctx.ok(True, "arm:glue-bindings-traced", n=n)
+        for m in info:
+            ctx.notes.append("glue (informational; the executed cases decide): " + m[:300])
+        return
     if sub == "arm-xcheck":
         from armsim import runner
         n, msgs = runner.xcheck_aarch64()
@@ -369,6 +380,10 @@ def finish(merged, cov):
     missing = [n for n in need if not merged.outcomes.get(n)]
     if missing:
         return "expected outcome classes never exercised: %s" % missing
+    if merged.outcomes.get("arm:glue-not-understood"):
+        return "the compiled ARM glue has a shape the symbolic tracker cannot follow: %s" % merged.notes[:2]
+    if merged.outcomes.get("arm:glue-bindings-traced") != 16:
+        return "expected 16 ARM member bindings, traced %s" % merged.outcomes.get("arm:glue-bindings-traced")
     cov["states"] = merged.evaluations
     cov["transitions"] = merged.evaluations
     cov["traces_validated_against_impl"] = sum(v for k, v in merged.outcomes.items() if k.startswith("pyrow:") or k.startswith("arm:"))
